@@ -273,7 +273,10 @@ async def _run(prog, faults):
             remaining.append((b, lk, "f" if raw == FOREIGN else "m"))
     # a write issued right after the block
     pb, pk, pv = PROBE
-    await cache.set(kname(pb, pk), pv)
+    try:
+        await cache.set(kname(pb, pk), pv)
+    except Exception:  # noqa: BLE001  (a task still inside a dead transaction may fail here: the write is lost all the same)
+        pass
     probe_ok = (await backs[pb].get(kname(pb, pk))) == pv
     final = await snapshot()
     # lease of what remains: live until (acquisition + timeout), gone at that instant
